@@ -7,6 +7,7 @@
 // planned SIGINT source and a captured exit().  The child draws no randomness
 // of its own: everything is decided by the request.
 
+#include <dirent.h>
 #include <errno.h>
 #include <fcntl.h>
 #include <poll.h>
@@ -906,6 +907,12 @@ int main(int argc, char *argv[])
   int stderr_fd = memfd_create("verif-stderr", 0);
   if (stderr_fd < 0) { perror("memfd_create"); return 2; }
 
+  // Code under test that bypasses the wrapped seams (open()/creat() instead of fopen()) must not
+  // litter the caller's directory: every child runs in a private, empty scratch directory, and
+  // whatever appears there is counted (counter 63) and removed.
+  char scratch[64] = "/tmp/verif-exec-XXXXXX";
+  if (mkdtemp(scratch) == NULL || chdir(scratch) != 0) { perror("scratch dir"); return 2; }
+
   std::vector<uint8_t> req;
   for (;;)
   {
@@ -974,6 +981,27 @@ int main(int argc, char *argv[])
     }
 
     SharedHeader *h = W.hdr;
+    {
+      DIR *d = opendir(scratch);
+      uint64_t escaped = 0;
+      if (d != NULL)
+      {
+        struct dirent *e;
+        while ((e = readdir(d)) != NULL)
+        {
+          if (strcmp(e->d_name, ".") == 0 || strcmp(e->d_name, "..") == 0) { continue; }
+          std::string p = std::string(scratch) + "/" + e->d_name;
+          if (remove(p.c_str()) != 0)
+          {
+            std::string cmd = "rm -rf '" + p + "'";
+            if (system(cmd.c_str()) != 0) { }
+          }
+          escaped++;
+        }
+        closedir(d);
+      }
+      h->counters[NCOUNTERS - 1] = escaped;
+    }
     WBuf rs;
     rs.u8(h->done ? 1 : 0);
     rs.u32((uint32_t)h->how);
@@ -1005,5 +1033,6 @@ int main(int argc, char *argv[])
     if (h->stdout_len > (1u << 20)) { madvise(W.stdout_buf, STDOUT_CAP, MADV_REMOVE); }
     if (h->result_len > (1u << 20)) { madvise(W.result_buf, RESULT_CAP, MADV_REMOVE); }
   }
+  if (chdir("/") == 0) { rmdir(scratch); }
   return 0;
 }
